@@ -86,10 +86,15 @@ class World:
         S = serif()
         if not isinstance(obj, S.Vector):
             raise HarnessError("bind of non-serif object %r" % type(obj))
-        for e in self.entries.values():
-            if e.obj is obj and e.role == role:
-                self._name(name, e)
-                return e
+        if role[0] == "view":
+            # the same column obtained twice from the same table is one (object, role) pair;
+            # every *derivation or construction event* gets its own entry even if the library
+            # handed back an object the program already holds (then the two are distinct
+            # program values that must not observe each other's writes)
+            for e in self.entries.values():
+                if e.obj is obj and e.role == role:
+                    self._name(name, e)
+                    return e
         self._eid += 1
         e = Entry(self._eid, obj, role, born, depth, isinstance(obj, S.Table))
         self.entries[e.eid] = e
